@@ -1,5 +1,6 @@
 import PugModel.Driver.C18
 import PugModel.Driver.C17
+import PugModel.Driver.Render
 /-!
 `pvd`: the model driver. One JSON case per line on stdin (the line the harness produced, with the
 implementation's answer merged in under "impl" for the cases whose model is relative to measured
@@ -11,6 +12,7 @@ def dispatch (c : Json) : Json × Json :=
   match jstr c "kind" with
   | "math" => runMath c
   | "partials" => runPartials c (jget c "impl")
+  | "render" => runRender c
   | k => (clsOut "no-model" k, clsOut "no-model" k)
 
 partial def loop (h : IO.FS.Stream) (out : IO.FS.Stream) : IO Unit := do
